@@ -204,6 +204,8 @@ def genSam (d : Desc) (c : Compiled) (off : Option (Int × Int)) : D (List SamRu
          | some dsc => "_" ++ dsc
          | none => if ni.ranges.length > 1 then "_" ++ toString i else "") ++ "_sam_idx"
       { dest := subOffset ni.id off, range := r, name := nm }
+  if rules.any fun r => r.range.stop > (2 : Int) ^ d.addrW then
+    throw (.range "Address range exceeds the address space")
   let asMap : List (MapRule Unit) := rules.map fun r =>
     { dest := (), start := r.range.start, stop := r.range.stop, size := r.range.size }
   if !checkNoOverlap asMap then throw (.overlap "Overlapping ranges")
